@@ -543,6 +543,14 @@ def _resolve_handler(program, site: Site, in_fn, which, e, ex=None) -> HandlerRe
         # conditional expression decided by it, functools.partial of one of these
         capture = {}
         t = ex.eval_in_scope(module, in_fn, e, ctx=site.ctx, roles=site.roles, capture=capture)
+        if in_fn is not None:
+            # arguments that are locals of the function making the subscription (observer = source.observer inside its
+            # loop) have a value only on a path: let the caller bind them by executing the subscribe function
+            own = module.scopes[in_fn].qualname
+            from .terms import subterms
+            for v in capture.values():
+                if any(x[0] == "free" and len(x) > 2 and x[2] == own for x in [v] + list(subterms(v))):
+                    raise AnalysisError("%s: the %s handler %s depends on locals of %s" % (module.where(e), which, ast.unparse(e)[:50], own))
         ref = _handler_from_term(site, which, t, e, capture) if t is not None else None
         if ref is not None:
             return ref
